@@ -194,6 +194,11 @@ def gen(seed, run, tier='quick'):
         if rng.random() < 0.1 and specs:
             j = specs[0][0][0]
             specs.append([[j, 'obj'], amount(1), {'t': 'int', 'v': 1}])
+            if rng.random() < 0.5:
+                # ... and a third time, literally as the first time
+                # (A, B, A: the most recent entry is A again)
+                specs.append([list(specs[0][0]), dict(specs[0][1]),
+                              dict(specs[0][2])])
         return specs
 
     def some_date():
